@@ -83,6 +83,13 @@ def decoder_methods(ctx):
                 d["cls"] = "word2"
             elif name == "string":
                 d["cls"] = "string"
+            if d["cls"] == "other":
+                # record any conversion call for the report
+                for x in walk(f["body"]):
+                    if x[0] == "call":
+                        segs = (path_of(x[1]) or "").split("::")
+                        if len(segs) >= 2 and segs[-1].startswith("from_") and segs[-2][:1].isupper():
+                            d["ty"], d["via"] = segs[-2], segs[-1]
             out[name] = d
         return out
     return ctx.memo("decoder_methods", build)
